@@ -17,7 +17,7 @@ def run(tier, replay=None):
     cfgs = ["MC_C04_quick.cfg", "MC_C04_portal.cfg", "MC_C04_types.cfg"] if tier == "quick" else ["MC_C04_quick.cfg", "MC_C04_portal.cfg", "MC_C04_types.cfg"]
     if replay:
         case = json.load(open(replay))["case"]
-        cases_by_cfg = [("replay", [case["case"]] if "case" in case else [case])]
+        cases_by_cfg = [] if str(case.get("leg", "")).startswith("ledger") else [("replay", [case["case"]] if "case" in case else [case])]
     else:
         cases_by_cfg = []
         for cfg in cfgs:
@@ -65,4 +65,6 @@ def run(tier, replay=None):
     ck.assumptions += ["bounded universe (constants in the cfg files)", "ids ordered as the real BLAKE3 ids (rank table from the harness)",
                        "projection through public accessors + verif::{warp_ids,store_ids}",
                        "model drift (real ops/outcome differ from the model's prediction while the law still holds) is reported, not a violation"]
+    import c04l                                  # ledger leg: multi-tick histories on one engine (spec/Ledger.tla)
+    c04l.run_leg(ck, binp, tier, ids, replay)
     return ck.finish()
